@@ -76,6 +76,9 @@ type vcfg struct {
 	scopes          []string
 	// ctor 1: build through the deprecated verifier.NewWithOptions(ociPolicy, store, manager, options)
 	ctor int64
+	// decoy: the OCI document lists, BEFORE the statement under study, a wildcard statement with the opposite
+	// disposition (skip if the real one verifies, strict if the real one skips); scopes must then be set
+	decoy bool
 }
 
 func buildVerifier(c vcfg) (fullVerifier, error) {
@@ -94,7 +97,15 @@ func buildVerifier(c vcfg) (fullVerifier, error) {
 		st.SignatureVerification.VerifyTimestamp = trustpolicyOption(c.verifyTimestamp)
 		bst.SignatureVerification.VerifyTimestamp = trustpolicyOption(c.verifyTimestamp)
 	}
-	opts := verifier.VerifierOptions{OCITrustPolicy: world.OCIDoc(st), BlobTrustPolicy: world.BlobDoc(bst), PluginManager: c.mgr}
+	ociDoc := world.OCIDoc(st)
+	if c.decoy {
+		d := world.Statement("decoy-wildcard", "skip", nil, nil, nil, []string{"*"})
+		if c.level == "skip" {
+			d = world.Statement("decoy-wildcard", "strict", nil, []string{"ca:decoy"}, []string{"*"}, []string{"*"})
+		}
+		ociDoc = world.OCIDoc(d, st)
+	}
+	opts := verifier.VerifierOptions{OCITrustPolicy: ociDoc, BlobTrustPolicy: world.BlobDoc(bst), PluginManager: c.mgr}
 	if c.validator != nil {
 		if c.legacy {
 			opts.RevocationClient = world.LegacyClient{V: c.validator}
@@ -116,11 +127,10 @@ func buildVerifier(c vcfg) (fullVerifier, error) {
 		if err != nil {
 			return nil, err
 		}
-		fv, ok := v.(fullVerifier)
-		if !ok {
-			return nil, fmt.Errorf("verifier.NewWithOptions returned %T, which does not verify blobs", v)
+		if fv, ok := v.(fullVerifier); ok {
+			return fv, nil
 		}
-		return fv, nil
+		return ociOnlyVerifier{v}, nil
 	}
 	return verifier.NewVerifierWithOptions(c.store, opts)
 }
@@ -153,4 +163,21 @@ func identityOnlyPlugin() (*world.ScriptedManager, *world.ScriptedPlugin) {
 
 func idPluginAttr() signature.Attribute {
 	return signature.Attribute{Key: "io.cncf.notary.verificationPlugin", Critical: true, Value: idPluginName}
+}
+
+// entryOf is the entry point a plan uses: the blob entry point only with a verifier built by
+// NewVerifierWithOptions - the deprecated NewWithOptions is documented as the constructor of an OCI verifier
+// (it returns a notation.Verifier), so nothing is assumed about blob verification through it.
+func entryOf(w map[string]int64) int64 {
+	if w["ctor"] == 1 {
+		return 0
+	}
+	return w["entry"]
+}
+
+// ociOnlyVerifier adapts a notation.Verifier that does not verify blobs (never asked to: see entryOf).
+type ociOnlyVerifier struct{ notation.Verifier }
+
+func (ociOnlyVerifier) VerifyBlob(ctx context.Context, gen notation.BlobDescriptorGenerator, sig []byte, opts notation.BlobVerifierVerifyOptions) (*notation.VerificationOutcome, error) {
+	return nil, fmt.Errorf("harness: this verifier was built as an OCI verifier")
 }
